@@ -942,4 +942,47 @@ impl PlacementT {
 //@end
 }
 
+// ---- RawCache::flush / evict_all: EVERY shard is evicted down to zero (C15: close persists what memory held; C13)
+pub struct ShardLockT { pub id: int }
+pub struct ShardGuardT { pub id: int }
+/// what evicting shard `id` down to `target` puts on the garbage list (contract of RawCacheShard::evict above)
+pub uninterp spec fn shard_garbage<E: Eviction>(id: int, target: usize) -> Seq<(Event, Arc<Record<E>>)>;
+impl ShardLockT {
+    #[verifier::external_body]
+    pub fn write(&self) -> (g: ShardGuardT) ensures g.id == self.id { unimplemented!() }
+}
+impl ShardGuardT {
+    #[verifier::external_body]
+    pub fn evict<E: Eviction>(&mut self, target: usize, garbages: &mut Vec<(Event, Arc<Record<E>>)>)
+        ensures final(garbages)@ == old(garbages)@ + shard_garbage::<E>(old(self).id, target), final(self).id == old(self).id,
+    { unimplemented!() }
+}
+pub open spec fn all_evicted<E: Eviction>(shards: Seq<ShardLockT>, n: int) -> Seq<(Event, Arc<Record<E>>)>
+    decreases n
+{
+    if n <= 0 { Seq::empty() } else { all_evicted::<E>(shards, n - 1) + shard_garbage::<E>(shards[n - 1].id, 0) }
+}
+pub struct ShardsInnerT { pub shards: Vec<ShardLockT> }
+pub struct ShardsOwnerT { pub inner: ShardsInnerT }
+impl ShardsOwnerT {
+//@region foyer-memory/src/raw.rs :: impl~^impl<E, S, I> RawCache<E, S, I> where/fn flush name=flush_evicts_every_shard start=/let mut garbages = vec!\[\];/ stmts=2
+//@head
+    fn flush_evicts_every_shard<E: Eviction>(&self) -> (r: Vec<(Event, Arc<Record<E>>)>)
+        ensures r@ == all_evicted::<E>(self.inner.shards@, self.inner.shards@.len() as int), // @label flush_evicts_every_shard_down_to_zero
+//@loop 1 iter=it
+            invariant garbages@ == all_evicted::<E>(self.inner.shards@, it.index@ as int), it.snapshot@.remaining().len() == self.inner.shards@.len(), forall|i: int| 0 <= i < self.inner.shards@.len() ==> *(#[trigger] it.snapshot@.remaining()[i]) == self.inner.shards@[i],
+//@tail
+        garbages
+//@end
+//@region foyer-memory/src/raw.rs :: impl~^impl<E, S, I> RawCache<E, S, I> where/fn evict_all name=evict_all_evicts_every_shard start=/let mut garbages = vec!\[\];/ stmts=2
+//@head
+    fn evict_all_evicts_every_shard<E: Eviction>(&self) -> (r: Vec<(Event, Arc<Record<E>>)>)
+        ensures r@ == all_evicted::<E>(self.inner.shards@, self.inner.shards@.len() as int), // @label evict_all_evicts_every_shard_down_to_zero
+//@loop 1 iter=it
+            invariant garbages@ == all_evicted::<E>(self.inner.shards@, it.index@ as int), it.snapshot@.remaining().len() == self.inner.shards@.len(), forall|i: int| 0 <= i < self.inner.shards@.len() ==> *(#[trigger] it.snapshot@.remaining()[i]) == self.inner.shards@[i],
+//@tail
+        garbages
+//@end
+}
+
 } // verus!
